@@ -66,9 +66,21 @@ def plan(tier, seed):
     return {"n_cases": n, "floors": {"evaluations": n // 2}}
 
 
+FAMILIES = [["tuple[int, int]", "tuple[nat, bool]", "tuple[float, bool]", "tuple[tuple[int, int], bool]"],
+            ["array[int, 2]", "array[nat, 2]", "int", "nat"], ["int", "nat", "float", "bool"]]
+
+
 def gen_set(rng):
     k = rng.randint(2, 5)
     variants = []
+    if rng.random() < 0.4:
+        # confusable family: variants differ only in how they type the same argument shapes, so a
+        # variant that is rejected late has already typed the literals inside the argument
+        fam = rng.choice(FAMILIES)
+        for i in range(k):
+            params = [rng.choice(fam) for _ in range(rng.choice([1, 1, 2]))]
+            variants.append((params, rng.choice(list(RET)), False))
+        return variants
     for i in range(k):
         if rng.random() < 0.15:
             params = ["T", "T"] if rng.random() < 0.6 else ["T"]
@@ -158,11 +170,24 @@ class Crash(Exception):
         self.frame, self.tb = frame, tb
 
 
+PAIRS = [(a, b) for fam in FAMILIES for a in fam for b in fam if a != b]
+
+
 def run_case(ctx, rng, idx, params, tier):
     from vf import ctx as C
 
     variants = gen_set(rng)
     arglists = gen_args(rng, variants)
+    if idx % 2 == 1:
+        # systematic sweep over ordered pairs (A, B) of confusable parameter types: A is listed
+        # first, the arguments are the ones written for B (so A, where it rejects, rejects after
+        # having looked at the literals inside), optionally followed by a random third variant
+        a, b = PAIRS[(idx // 2 + rng.randrange(len(PAIRS))) % len(PAIRS)] if tier != "quick" else \
+            PAIRS[(idx // 2) % len(PAIRS)]
+        variants = [([a], rng.choice(list(RET)), False), ([b], rng.choice(list(RET)), False)]
+        if rng.random() < 0.5:
+            variants.append(([rng.choice(PTYPES)], rng.choice(list(RET)), False))
+        arglists = [([b], [src]) for src in ARGS[b]] + [([a], [src]) for src in ARGS[a][:2]]
     nest = None
     if rng.random() < 0.35 and len(variants) >= 3:
         # an inner set needs >= 2 members and the outer set >= 2 entries
